@@ -31,7 +31,7 @@ type stateInfo struct {
 func configs(tier string) []*config {
 	mk := func(n0, workers, steps, k int, newState bool) *config {
 		return &config{n0: n0, workers: workers, steps: steps, k: k, newState: newState, maxLen: n0 + 1,
-			variants: []int{vCorruptField, vForgedRoot, vForgedParent}}
+			variants: []int{vCorruptField, vForgedRoot, vForgedParent}, holds: []byte{lStore, lReorg}}
 	}
 	if s := os.Getenv("VERIF_C06_CFG"); s != "" {
 		var out []*config
@@ -55,6 +55,7 @@ func configs(tier string) []*config {
 		}
 		for _, c := range out {
 			c.variants = append(c.variants, vCorruptDiff)
+			c.holds = []byte{lStore, lReorg, lVerify, lFetch, lCheck}
 		}
 		return out
 	}
@@ -90,7 +91,8 @@ func TestCheck(t *testing.T) {
 	r.Set("rule", "deviation-bounded explicit-state search over the quiescent points of the real sync.Synchronizer in a testing/synctest bubble: "+
 		"default event = truthful answer to the oldest outstanding source request (cost 0); source steps (reorg at any fork height / growth) cost 0 "+
 		"but are bounded per configuration; every other enabled event (answer a younger request, error, stale latest header, corrupt-field / forged-root / "+
-		"forged-parent block, block of a pre-reorg branch, advance the poll ticker) costs 1; ALL states reachable with <= k deviations are expanded with ALL "+
+		"forged-parent block, block of a pre-reorg branch, advance the poll ticker, hold the next sync.EventListener callback of a class at a height so that "+
+		"it parks inside the pipeline - e.g. between blockchain.Store and the notifications - until released for free) costs 1; ALL states reachable with <= k deviations are expanded with ALL "+
 		"their enabled events (successor = replay of the whole path in a fresh bubble + one event, states merged on a canonical key); from every distinct "+
 		"state a convergence run is executed. Non-trivial = a transition that stores or reverts a block")
 	r.Assume = append(r.Assume,
@@ -100,6 +102,9 @@ func TestCheck(t *testing.T) {
 			"n0+1) or appends one block; a step that only truncates the source chain is not scripted",
 		"blocks are valid 0.14.0 blocks from verif/mc/chain; corrupt-field keeps the hash (must fail the hash check), forged-root / forged-parent recompute "+
 			"the hash (self-consistent, must fail in Store); revertTask requests are answered with truth / error / old-branch block only",
+		"listener holds: at most one callback armed or parked at a time; classes store+reorg (quick), all five (thorough); a parked callback always returns "+
+			"eventually (the convergence run releases it first); emissions are compared with the commit history as FIFO queues per feed (the "+
+			"interleaving BETWEEN the two feeds inside one step is not observable), announcements may lag only while a store callback is parked",
 		"a cancelled request returns ctx.Err() immediately (like an HTTP client); pre-confirmed polling is disabled (interval 0); no database faults",
 		"convergence run: the source no longer changes, answers the oldest request truthfully, a minute passes whenever the configuration repeats; "+
 			"verdict 'stuck' only when the configuration repeats across a time advance (or after "+fmt.Sprint(convHorizon)+" steps)")
